@@ -18,6 +18,15 @@ to either copy by both and the heaps compared again.  The model's final value ma
 `Cloner._value_map`; the scope walker's verdict (graph / function / model) with the real outcome;
 `functionalize(Sequential / PassManager pipelines)` with the model's `functionalizeAny`.
 
+Round 4: the final value map of EVERY cloner of `Function.clone` / `Model.clone` is compared with the model's
+(`funcCloneCore`, `modelCloneTrace`) and the wiring image of functions and models is evaluated on the real objects;
+`functionalize` pipelines whose passes (and the pipeline object) override `requires()` / `ensures()` with hooks that edit and
+raise, with `modified` flags and `early_stop` (`functionalizeHooks`); the two shapes for which the scope walker answers
+`irregular` (`gen_spec_irregular`); the fourth editing alphabet (item-level calls and extended slices on graph inputs /
+outputs, `initializers.setdefault`, multi-node `replace_nodes_and_values`); and, on its own stream (harness/c13_meta.py),
+`clone(deep_copy=True/False)` of IRs whose `meta` stores hold nested / cyclic / aliased lists and dicts, against the
+refinement `IrVerif.Clone.Meta`, followed by in-place edit histories of those objects.
+
 Every call of the real code of a case runs under a CPU-time guard (`cpu_guarded`): a case that does not end
 is reported as `nontermination:*` instead of hanging the check.
 
@@ -179,9 +188,19 @@ ASSUMPTIONS = [
     "55 calls) with receivers and arguments outside the protected region; the *_ext / *_ext3 theorems need the extended "
     "separation (users of a value, outputs of a node, inputs and initializers of a graph do not lead into the protected "
     "region), which holds for allow_outer_scope_values=False clones (proved) and fails by design for allow=True "
-    "(outer.replace_all_uses_with(..) on the original rewires the clone's nodes that consume the captured value); still "
-    "oracle-only: initializers.setdefault, insert/remove/del on graph.inputs/outputs, extended slices (step != 1), "
-    "replace_nodes_and_values with several old / new nodes",
+    "(outer.replace_all_uses_with(..) on the original rewires the clone's nodes that consume the captured value)",
+    "IrVerif.Clone.Edit4 (Model/Clone4.lean) = the 55 calls of Edit3 + 17: graph.inputs / graph.outputs .insert(i, v), "
+    ".remove(v), del lst[i], lst[i] = v, .extend(vs), .clear() with any index incl. negative (12); "
+    "graph.initializers.setdefault(k, v) (1); lst[a:b:s] = vs and del lst[a:b:s] on inputs and outputs with any, omitted or "
+    "negative bounds and any step incl. the zero-step and extended-slice size errors (4): 72 calls; "
+    "convenience.replace_nodes_and_values generalised to several old nodes and several freshly built new nodes that may feed "
+    "each other; C13_frame_ext4 / _clone_edited_ext4 / _functionalize_ext4 / _orig_edited_ext4 / _orig_edited_model_ext4 "
+    "quantify over all histories of these calls (strict separation: allow=False clones); still oracle-only or not modelled: any "
+    "editing call on a GraphView (model: unsupported), inputs/outputs.pop(i) with an index, inherited UserList.reverse / "
+    "sort and UserDict.popitem as direct calls, insert_before / insert_after / replace_nodes_and_values with new nodes that "
+    "already sit in a graph, nodes or outputs without names (name authority), staged pipelines (functionalizeAny / "
+    "functionalizeHooks stay over Edit2), attrMetaSet; a library `assert` tripped by an edit counts as 'raised' (the model "
+    "answers unsupported there: counted, not a disagreement)",
     "Graph.sort: for graphs whose nodes hold no subgraph attribute the model runs its own transcription of the stable "
     "Kahn sort (Edit2.sort); for graphs with subgraphs (Edit3.sortDeep) it builds the tree of the nest from the heap and "
     "calls property C12's Sort.sortModel read-only (C12 owns the algorithm), re-linking every graph of the nest; the "
@@ -1511,8 +1530,10 @@ def apply_edit(heap: Heap, b: Built, e):
         else:
             raise AssertionError(k)
         return "ok"
-    except AssertionError:
-        raise
+    except AssertionError as ex:
+        if ex.args == (k,):  # unknown edit kind: a bug of this harness
+            raise
+        return "raised"  # an `assert` of the library itself (e.g. "Bug: value does not belong to the graph")
     except Exception:  # noqa: BLE001
         return "raised"
 
@@ -1843,8 +1864,8 @@ def gen_spec(rng, size=4):
         return gen_spec_later_spec(rng)
     if rng.random() < 0.02:
         return gen_spec_irregular(rng)
-    if rng.random() < 0.05:
-        # a dedicated stream for C13_functionalize_any: any model, functionalize(pipeline)
+    if rng.random() < 0.08:
+        # a dedicated stream for C13_functionalize_any / C13_functionalize_hooks: any model, functionalize(pipeline)
         sub = random_sub(rng)
         spec = gen_spec(sub, size)
         spec["target"] = {"kind": "functionalize", "stages": gen_stages(rng)}
@@ -1964,7 +1985,7 @@ def gen_stages(rng):
             raise_at = [rng.choice(["req", "ens"]), rng.randrange(ncalls)]
         else:
             raise_at = [rng.choice(["outer_req", "outer_ens"]), None]
-        plan["hooks"] = {"early_stop": manager and rng.random() < 0.7, "mod_rounds": rng.randrange(0, plan["steps"] + 1),
+        plan["hooks"] = {"early_stop": manager and rng.random() < 0.5, "mod_rounds": rng.randrange(0, plan["steps"] + 1),
                          "raise": raise_at, "outer": rng.random() < 0.5 or bool(raise_at and raise_at[0].startswith("outer"))}  # fmt: skip
     return plan
 
@@ -2752,7 +2773,7 @@ def run_hooked_functionalize(out, spec, t, edits, b2, heap2, roots2, src2, clone
     for j, e in enumerate(edits):
         chunks[slots[min(j * len(slots) // len(edits), len(slots) - 1)]].append(e)
     raise_at = tuple(hk["raise"]) if hk.get("raise") else None
-    st: dict = {"next": 0, "cur": -1, "outcomes": [], "ran": [], "done": set()}
+    st: dict = {"next": 0, "cur": -1, "outcomes": [], "ran": [], "done": set(), "hdr": {}}
     others = roots2 + [src2]
     before = ([snapshot(r) for r in others], [serialize(r) for r in others])
     lax_before = [snapshot(r, shared_state=False) for r in others]
@@ -2801,17 +2822,27 @@ def run_hooked_functionalize(out, spec, t, edits, b2, heap2, roots2, src2, clone
             run_slot(("req", st["cur"]), model)
 
         def ensures(self, model):
+            if model is not st.get("result"):
+                # `ensures(result.model)`: callPassH hands the hook the model the stage RETURNED
+                st["ensures_wrong_model"] = True
             run_slot(("ens", st["cur"]), model)
+
+    def result_of(model):
+        st["result"] = model
+        # the header fields of the model this call returns (a rewrap copies what earlier setModelHeader edits left)
+        st["hdr"][st["cur"]] = heap2.payload(("hdr", (model.ir_version, model.producer_name, model.producer_version,
+                                                       model.domain, model.model_version, model.doc_string)))  # fmt: skip
+        return ir.passes.PassResult(model, modified())
 
     class InPlaceStage(Hooks, ir.passes.InPlacePass):
         def call(self, model):
             run_slot(("call", st["cur"]), model)
-            return ir.passes.PassResult(model, modified())
+            return result_of(model)
 
     class StampStage(Hooks, ir.passes.FunctionalPass):
         def call(self, model):
             see(model)
-            return ir.passes.PassResult(rewrap(model), modified())
+            return result_of(rewrap(model))
 
     class DestructiveStage(Hooks, ir.passes.PassBase):
         in_place = False
@@ -2819,7 +2850,7 @@ def run_hooked_functionalize(out, spec, t, edits, b2, heap2, roots2, src2, clone
 
         def call(self, model):
             run_slot(("call", st["cur"]), model)
-            return ir.passes.PassResult(rewrap(model), modified())
+            return result_of(rewrap(model))
 
     class OuterHooks:
         def requires(self, model):
@@ -2843,12 +2874,16 @@ def run_hooked_functionalize(out, spec, t, edits, b2, heap2, roots2, src2, clone
     result, exc_kind = None, None
     try:
         result = ir.passes.functionalize(pipeline)(b2.model)
-    except (ir.passes.PassError, ir.passes.InvariantError) as e:
+    except Exception as e:  # noqa: BLE001
+        # PassError (Sequential / PassManager wrap what a pass raises) or Pre/PostconditionError (the pipeline's own
+        # hooks); anything else is an exception the pass infrastructure let escape: named as it is, the model will differ
         x, names = e, []
         while x is not None and len(names) < 10:
             names.append(type(x).__name__)
             x = x.__cause__
         exc_kind = next((n for n in names if n in ("PreconditionError", "PostconditionError")), names[0])
+        if not isinstance(e, (ir.passes.PassError, ir.passes.InvariantError)):
+            exc_kind = "escaped:" + names[0]
     final_id = None
     if result is not None and not st.get("same"):
         final_id = heap2.add_root(result.model)
@@ -2888,6 +2923,9 @@ def run_hooked_functionalize(out, spec, t, edits, b2, heap2, roots2, src2, clone
         want = steps if not early else min(steps, mr + 1)
         if rounds_real != want:
             out.fail(f"functionalize:rounds:{label}", f"{rounds_real} rounds ran, {want} expected from the modified flags", case)
+    if st.get("ensures_wrong_model"):
+        out.disagree("ensures() was handed a model other than result.model (callPassH: the model the stage returned)",
+                     case, "result.model", "another model")
     if bad:
         return None
     m0 = b2.model
@@ -2901,7 +2939,8 @@ def run_hooked_functionalize(out, spec, t, edits, b2, heap2, roots2, src2, clone
         for j, k in enumerate(kinds):
             c = r * len(kinds) + j
             ip, ci = STAGE_FLAGS[k]
-            ps.append({"kind": "inplace" if k == "inplace" else "rewrap", "inPlace": ip, "changesInput": ci, "header": hdr,
+            ps.append({"kind": "inplace" if k == "inplace" else "rewrap", "inPlace": ip, "changesInput": ci,
+                       "header": st["hdr"].get(c, hdr),
                        "modified": r < int(hk.get("mod_rounds", 0)), "tr": tr(("call", c)),
                        "requires": {"tr": tr(("req", c)), "raises": raise_at == ("req", c)},
                        "ensures": {"tr": tr(("ens", c)), "raises": raise_at == ("ens", c)}})  # fmt: skip
